@@ -23,7 +23,9 @@ ROWMAX = 0x7FFFFFFF
 COLMAX = 0x7FFF
 
 NUMS = [0, 1, 2, 10, 255, 10 ** 15, 10 ** 16, 123456789012345, Decimal("0.1"), Decimal("1.5"), Decimal("0.00001"), Decimal("1.25e16"), Decimal("1e16"), Decimal("1e-7"),
-        Decimal("123456.789"), Decimal("1.5e16"), Decimal("2.5e-9"), Decimal("1e22"), Decimal("1.234e21"), Decimal("0.5"), Decimal("99.99"), Decimal("1e15"), Decimal("3.14159265358979")]
+        Decimal("123456.789"), Decimal("1.5e16"), Decimal("2.5e-9"), Decimal("1e22"), Decimal("1.234e21"), Decimal("0.5"), Decimal("99.99"), Decimal("1e15"), Decimal("3.14159265358979"),
+        # integers a double cannot hold: the stored literal is the integer (decimal128 coefficient), the double beside it only approximates it
+        2 ** 53 + 1, 12345678901234567, 2 ** 62 + 1, 999999999999999999]
 STRS = ["", "a", 'a"b', '""', "x,y", "(z)", "1+1", "it's", "{", "é😀", " sp ", "a;b", "}", "=", "A1", "TRUE", "line\nbreak", "%"]
 
 
